@@ -116,8 +116,9 @@ Theorem C02_prim_sel_value : ∀ k t rs v, t ∈ gate_types → rs ≠ [] → (t
 Proof. exact prim_sel_value. Qed.
 Print Assumptions C02_prim_sel_value.
 
-(* full statement for whole modules; not proved, decided per generated module by Run_C02.holds (which evaluates the
-   same guard in_subset and the executable form `denotes` of the conclusion) *)
+(* full statement for whole modules (both directions, blackbox instances included); not proved: the soundness half for
+   blackbox-free modules is C02_read_denotes_sound above, the rest is decided per generated module by Run_C02.holds (which
+   evaluates the same guard in_subset and the executable form `denotes` of the conclusion); see docs/C02-handover.md *)
 Definition C02_read_denotes_full : Prop := ∀ rsv bbs m,
   ports_match m = true → in_subset bbs m = true → list_to_set (module_ids m) ⊆ rsv →
   ∃ C, read rsv bbs m = Ok C ∧ c_name C = m_name m ∧
